@@ -61,10 +61,19 @@ def world_variant(n: int, hostile: bool) -> dict:
            "files": ["bbb/bbb_v7.mp4", "bbb/bbb_a1.mp4", "bbb/bbb_v7_enc.mp4", "bbb/bbb_a1_enc.mp4"],
            "marlin_la_url": pick(HOSTILE_URLS, BENIGN_URLS, n + 2), "playready_la_url": pick(HOSTILE_URLS, BENIGN_URLS, n + 3)}
     tracks = [{"track_id": 1, "role": "main", "lang": "und", "encrypted": False}]
-    return {"streams": [fz, enc],
+    # a stream whose audio has no encrypted copy: a multi-period manifest with DRM falls back to the clear file
+    enc2 = {"dir": "enc2", "title": "partly encrypted", "timing_ref": "pe_v7",
+            "files": [{"copy": "bbb/bbb_v7.mp4", "as": "pe_v7.mp4"}, {"copy": "bbb/bbb_v7_enc.mp4", "as": "pe_v7_enc.mp4"},
+                      {"copy": "bbb/bbb_a1.mp4", "as": "pe_a1.mp4"}]}
+    tracks_av = [{"track_id": 1, "role": "main", "lang": "und", "encrypted": True},
+                 {"track_id": 2, "role": "main", "lang": "und", "encrypted": False}]
+    return {"streams": [fz, enc, enc2],
             "mps": [{"name": "mps1", "title": pick(HOSTILE, BENIGN, n + 5) + " xx", "periods": [
                 {"pid": "p.1-a_", "stream": "fza", "start": "PT0S", "duration": "PT6S", "tracks": tracks},
-                {"pid": "p2", "stream": "fza", "start": "PT2S", "duration": "PT4S", "tracks": tracks}]}]}
+                {"pid": "p2", "stream": "fza", "start": "PT2S", "duration": "PT4S", "tracks": tracks}]},
+                    {"name": "mps2", "title": "partly encrypted periods", "periods": [
+                        {"pid": "q1", "stream": "enc2", "start": "PT4S", "duration": "PT12S", "tracks": tracks_av},
+                        {"pid": "q2", "stream": "enc", "start": "PT0S", "duration": "PT8S", "tracks": tracks_av}]}]}
 
 
 ALL_TEMPLATES = ["hand_made.mpd", "manifest_a.mpd", "manifest_b.mpd", "manifest_e.mpd", "manifest_h.mpd",
@@ -102,7 +111,10 @@ def generate(seed: int, tier: str, index: int) -> dict:
             headers = {}
             if rng.random() < 0.3:
                 headers["Host"] = rng.choice(HOSTILE_HOSTS)
-            if route < 0.2 and mode in ("live", "vod"):
+            if route < 0.1 and mode in ("live", "vod"):
+                path = f"/mps/{mode}/mps2/{tmpl}"
+                q["drm"] = optgen.gen_drm(rng) if rng.random() < 0.7 else q.get("drm", "none")
+            elif route < 0.25 and mode in ("live", "vod"):
                 path = f"/mps/{mode}/mps1/{tmpl}"
             else:
                 path = f"/dash/{mode}/{stream}/{tmpl}"
